@@ -258,7 +258,7 @@ Definition f_sep f := let 'mkFormat _ _ _ _ _ _ _ _ a _ _ := f in a.
 Definition f_sep2 f := let 'mkFormat _ _ _ _ _ _ _ _ _ a _ := f in a.
 Definition f_cf f := let 'mkFormat _ _ _ _ _ _ _ _ _ _ a := f in a.
 
-(* format.go:691 ReplaceFormatChar, :699 WithoutWidth *)
+(* format.go:693 ReplaceFormatChar, :701 WithoutWidth *)
 Definition replace_char (f : format) (c : N) : format :=
   mkFormat (f_alt f) (f_left f) (f_zero f) c (f_plus f) (f_prec f) (f_width f) (f_delim f) (f_sep f) (f_sep2 f) (f_cf f).
 Definition without_width (f : format) : format :=
@@ -267,7 +267,7 @@ Definition without_width (f : format) : format :=
 Definition with_prec (f : format) (p : Z) : format :=
   mkFormat (f_alt f) (f_left f) (f_zero f) (f_char f) (f_plus f) p (f_width f) (f_delim f) (f_sep f) (f_sep2 f) (f_cf f).
 
-(* format.go:465 simpleFormat, :469 basicFormat (separator "," always, leftDelimiter as given) *)
+(* format.go:467 simpleFormat, :471 basicFormat (separator "," always, leftDelimiter as given) *)
 Definition basic_format (c : N) (sep2 : option str) (delim : N) (cf : cfmap) : format :=
   mkFormat false false false c 0%N (-1) (-1) delim (Some [44%N]) sep2 cf.
 Definition simple_format (c : N) : format := basic_format c None 91%N CfNone.
@@ -338,13 +338,13 @@ Fixpoint of_digits_acc (base : Z) (ds : list Z) (acc : Z) : Z :=
   match ds with [] => acc | d :: r => of_digits_acc base r (acc * base + d) end.
 Definition of_digits (base : Z) (ds : list Z) : Z := of_digits_acc base ds 0.
 
-(* strconv.Atoi with the error dropped (format.go:530): saturates at MaxInt64 *)
+(* strconv.Atoi with the error dropped (format.go:532): saturates at MaxInt64 *)
 Definition atoi_sat (ds : str) : Z :=
   Z.min (of_digits 10 (List.map (fun c => Z.of_N c - 48) ds)) max_int64.
 
 Definition count_c (c : N) (s : str) : nat := List.length (filter (N.eqb c) s).
 
-(* format.go:590 hasDelimOnce *)
+(* format.go:592 hasDelimOnce *)
 Definition once (flags : str) (c : N) : R bool :=
   match count_c c flags with
   | O => ROk false
@@ -352,7 +352,7 @@ Definition once (flags : str) (c : N) : R bool :=
   | _ => RErr ERepeatedFlag
   end.
 
-(* format.go:513-521 *)
+(* format.go:515-523 *)
 Fixpoint find_delim (flags : str) (ds : list N) (found : N) : R N :=
   match ds with
   | [] => ROk found
@@ -362,7 +362,7 @@ Fixpoint find_delim (flags : str) (ds : list N) (found : N) : R N :=
   end.
 Definition delimiters : list N := [91; 123; 40; 60; 124]%N.
 
-(* format.go:496 parseFormat *)
+(* format.go:498 parseFormat *)
 Definition parse_format (s : str) (sep sep2 : option str) (cf : cfmap) : R format :=
   match parse_directive s with
   | None => RErr EInvalidSpec
@@ -426,7 +426,7 @@ Definition fmt_integer (sharp zero plus space minus : bool) (wid prec : Z) (base
     let ds := if negative then 45%N :: ds else if plus then 43%N :: ds else if space then 32%N :: ds else ds in
     fmt_pad wid minus false ds.
 
-(* goFormat(f) (format.go:581) handed to fmt with an int64: the flags fmt sees are the format's fields *)
+(* goFormat(f) (format.go:583) handed to fmt with an int64: the flags fmt sees are the format's fields *)
 Definition go_fmt_int (f : format) (verb : N) (n : Z) : str :=
   let base := if N.eqb verb 100 then 10 else if N.eqb verb 111 then 8 else if N.eqb verb 98 then 2 else 16 in
   fmt_integer (f_alt f) (f_zero f) (N.eqb (f_plus f) 43) (N.eqb (f_plus f) 32) (f_left f) (f_width f) (f_prec f)
@@ -485,7 +485,7 @@ Definition is_space_b (c : N) : bool := between 9 13 c || N.eqb c 32.
 Definition trim_space (s : str) : str := rev (drop_while is_space_b (rev (drop_while is_space_b s))).
 
 (* ------------------------------------------------------------------------------------------ *)
-(* format.go:607 ApplyStringFlags *)
+(* format.go:609 ApplyStringFlags *)
 Definition apply_string_flags (o : oracle) (f : format) (s : str) (quoted : bool) : obs :=
   bind (if quoted then quote o s else ROk s) (fun s' =>
     if f_left f || (0 <=? f_width f) || (0 <=? f_prec f)
@@ -553,7 +553,7 @@ Definition fmt_float (o : oracle) (sharp zero plus space minus : bool) (wid prec
 Definition go_fmt_float (o : oracle) (f : format) (verb : N) (bits : Z) : obs :=
   fmt_float o (f_alt f) (f_zero f) (N.eqb (f_plus f) 43) (N.eqb (f_plus f) 32) (f_left f) (f_width f) (f_prec f) verb bits.
 
-(* floattype.go:381 padFloat *)
+(* floattype.go:386 padFloat *)
 Definition pad_float (f : format) (s : str) : str :=
   let pad := f_width f - len s in
   if pad <=? 0 then s
@@ -687,7 +687,7 @@ Definition render_boolean (o : oracle) (f : format) (b : bool) : obs :=
   else if mem c l_sp then apply_string_flags o f (bool_str b false s_true s_false) false
   else OErr (EUnsupported c KdBoolean).
 
-(* stringtype.go:547; 's' goes through fmt with goFormat(f): zero padding, precision, width *)
+(* stringtype.go:556; 's' goes through fmt with goFormat(f): zero padding, precision, width *)
 Definition render_string (o : oracle) (f : format) (s : str) : obs :=
   let c := f_char f in
   if N.eqb c 115 then OText (fmt_s (f_width f) (f_prec f) (f_left f) (f_zero f) s)
@@ -713,7 +713,7 @@ Fixpoint b64 (url : bool) (s : str) : str :=
                          b64_char url ((b mod 16) * 4 + c / 64); b64_char url (c mod 64)]%N ++ b64 url r
   end.
 
-(* binarytype.go:264 *)
+(* binarytype.go:271 *)
 Definition render_binary (o : oracle) (f : format) (bs : str) : obs :=
   let c := f_char f in
   bind (if N.eqb c 115 then (if utf8_valid bs then ROk bs else RErr EFailure)
@@ -815,7 +815,7 @@ Fixpoint get_format (o : oracle) (m : fmap) (v : value) : R format :=
   end.
 
 (* ------------------------------------------------------------------------------------------ *)
-(* per-type format maps: NewFormatMap (format.go:316), FormatFromHash (:339), mergeFormats (:208) *)
+(* per-type format maps: NewFormatMap (format.go:318), FormatFromHash (:341), mergeFormats (:210) *)
 
 (* IsAssignable(a, b) between the default key types *)
 Definition key_sub (a b : tkey) : bool :=
@@ -830,7 +830,7 @@ Definition key_sub (a b : tkey) : bool :=
   | _, _ => false
   end.
 
-(* format.go:292 typeRank *)
+(* format.go:294 typeRank *)
 Definition key_rank (k : tkey) : Z :=
   match k with KNumeric | KInteger | KFloat => 13 | KString => 12 | KArray => 4 | KHash => 2 | _ => 0 end.
 
@@ -843,7 +843,7 @@ Definition key_name (k : tkey) : str :=
   | KType => lit "Type" | KSelf => lit "Self"
   end.
 
-(* the comparison of the sort.Slice call, format.go:239-262 *)
+(* the comparison of the sort.Slice call, format.go:241-264 *)
 Definition key_less (a b : tkey) : bool :=
   if tkey_eqb a b then false
   else let ab := key_sub b a in
@@ -897,8 +897,8 @@ Fixpoint new_format_map (m : list (tkey * fent)) : R fmap :=
 
 Definition opt_or {A} (a b : option A) : option A := match a with Some _ => a | None => b end.
 
-(* merge (format.go:266) of the formats that both maps hold for a key, and the loop of
-   mergeFormats over the united keys (format.go:225-237); rec = mergeFormats on the container formats *)
+(* merge (format.go:268) of the formats that both maps hold for a key, and the loop of
+   mergeFormats over the united keys (format.go:227-239); rec = mergeFormats on the container formats *)
 Definition merge_format (cf : cfmap) (low high : format) : format :=
   mkFormat (f_alt high) (f_left high) (f_zero high) (f_char high) (f_plus high)
            (f_prec high) (f_width high) (f_delim high)
@@ -924,7 +924,7 @@ Fixpoint merge_keys (rec : cfmap -> cfmap -> option cfmap) (norm hi : fmap) (ks 
     end
   end.
 
-(* mergeFormats (format.go:208); None = out of fuel *)
+(* mergeFormats (format.go:210); None = out of fuel *)
 Fixpoint merge_formats (n : nat) (lower higher : cfmap) : option cfmap :=
   match n with
   | O => None
@@ -954,7 +954,7 @@ Fixpoint fent_depth (e : fent) : nat :=
 Fixpoint fmap_depth (m : list (tkey * fent)) : nat :=
   match m with [] => 0%nat | (_, e) :: r => Nat.max (fent_depth e) (fmap_depth r) end.
 
-(* newFormatContext3 (format.go:185): the format map of the context; None = mergeFormats out of fuel *)
+(* newFormatContext3 (format.go:187): the format map of the context; None = mergeFormats out of fuel *)
 Definition context_of (spec : fspec) : option (R fmap) :=
   match spec with
   | FDefault => Some (ROk default_formats)
@@ -971,7 +971,7 @@ Definition context_of (spec : fspec) : option (R fmap) :=
   end.
 
 (* ------------------------------------------------------------------------------------------ *)
-(* indentation (format.go:39, :414-458) *)
+(* indentation (format.go:39, :416-460) *)
 
 Record indentation := mkInd { i_first : bool; i_indenting : bool; i_level : nat }.
 Definition default_indentation := mkInd true false 0.
@@ -990,7 +990,7 @@ Definition opt_byte (b : N) : str := if N.eqb b 0 then [] else [b].
 
 Definition sep_or (s : option str) (dflt : str) : str := match s with Some x => x | None => dflt end.
 
-(* arraytype.go:666-680 *)
+(* arraytype.go:678-692 *)
 Fixpoint sz_break (w : Z) (items : list (bool * str)) (widest : Z) : bool :=
   match items with
   | [] => false
@@ -999,7 +999,16 @@ Fixpoint sz_break (w : Z) (items : list (bool * str)) (widest : Z) : bool :=
                          if w <? widest' then true else sz_break w r widest'
   end.
 
-(* arraytype.go:633-708 with the children already rendered: (is array or hash, text) *)
+(* arraytype.go:695-715, the elements after the first: separator, then a line break, a space or nothing *)
+Fixpoint arr_rest (alt szb : bool) (pad sep : str) (rest : list (bool * str)) (prev : bool) : str :=
+  match rest with
+  | [] => []
+  | (ah, s) :: r =>
+    sep ++ (if negb ah && (szb || alt && prev) then 10%N :: pad
+            else if negb (alt && ah) then [32%N] else []) ++ s ++ arr_rest alt szb pad sep r ah
+  end.
+
+(* arraytype.go:645-720 with the children already rendered: (is array or hash, text) *)
 Definition arr_layout (f : format) (ind : indentation) (delim : N) (items : list (bool * str)) : str :=
   let indent := i_set_indenting ind (f_alt f || i_indenting ind) in
   let pre := if i_breaks indent then 10%N :: i_padding indent else [] in
@@ -1011,18 +1020,11 @@ Definition arr_layout (f : format) (ind : indentation) (delim : N) (items : list
       match items with
       | [] => []
       | (ah0, s0) :: rest =>
-        (if szb && negb ah0 then [32%N] else []) ++ s0 ++
-        (fix go (rest : list (bool * str)) (prev : bool) : str :=
-           match rest with
-           | [] => []
-           | (ah, s) :: r =>
-             sep ++ (if negb ah && (szb || f_alt f && prev) then 10%N :: i_padding cind
-                     else if negb (f_alt f && ah) then [32%N] else []) ++ s ++ go r ah
-           end) rest ah0
+        (if szb && negb ah0 then [32%N] else []) ++ s0 ++ arr_rest (f_alt f) szb (i_padding cind) sep rest ah0
       end in
   pre ++ opt_byte dl ++ body ++ opt_byte dr.
 
-(* hashtype.go:1246-1319 with keys and values already rendered *)
+(* hashtype.go:1274-1347 with keys and values already rendered *)
 Definition hash_layout (f : format) (ind : indentation) (items : list (str * str)) : str :=
   let indent := i_set_indenting ind (f_alt f || i_indenting ind) in
   let pre := if i_breaks indent then 10%N :: i_padding indent else [] in
@@ -1054,9 +1056,9 @@ Definition cf_or_default (f : format) : fmap :=
   match f_cf f with CfNone => default_container_formats | c => cf_entries c end.
 
 (* Value.ToString under the context (ind, m).  None = out of fuel.
-   Array.ToString2 (arraytype.go:619), childToString (:732), Hash.ToString2 (hashtype.go:1232);
+   Array.ToString2 (arraytype.go:631), childToString (:744), Hash.ToString2 (hashtype.go:1260);
    `entries` = the array is WrapArray3(hash): its elements are HashEntry values, which isContainer
-   (arraytype.go:744) does not count as containers and which render as the array [key, value]. *)
+   (arraytype.go:756) does not count as containers and which render as the array [key, value]. *)
 Fixpoint render (n : nat) (o : oracle) (ind : indentation) (m : fmap) (entries : bool) (v : value) {struct n} : option obs :=
   match n with
   | O => None
